@@ -103,11 +103,11 @@ pub fn gen_c03(rng: &Rng, tier: Tier) -> ReadScn {
         let big = rng.chance(1, 3);
         let input = many_small_records(rng, fmt, if big { rng.range(70_000, 200_000) } else { rng.range(2000, 6000) });
         let a = if big {
-            Cfg { cap: 65536, policy: PolicySpec::Std, script: vec![rng.range(512, 9000) as u32], cuts: vec![], faults: vec![], intr_burst: None }
+            Cfg { cap: 65536, policy: PolicySpec::Std, script: vec![rng.range(512, 9000) as u32], cuts: vec![], faults: vec![], intr_burst: None, lift: None }
         } else {
             storm_cfg(rng)
         };
-        let b = Cfg { cap: rng.range(64, 400), policy: PolicySpec::Std, script: vec![], cuts: vec![], faults: vec![], intr_burst: None };
+        let b = Cfg { cap: rng.range(64, 400), policy: PolicySpec::Std, script: vec![], cuts: vec![], faults: vec![], intr_burst: None, lift: None };
         let n = input.iter().filter(|x| **x == if fmt == Fmt::Fasta { b'>' } else { b'@' }).count();
         return ReadScn { fmt, input, cfgs: vec![a, b], ops: ops_next_to_end(n), mon: Monitors::default(), profile: if big { "default_capacity_short_reads".into() } else { "interrupt_storm".into() } };
     }
@@ -155,6 +155,37 @@ pub fn gen_c03(rng: &Rng, tier: Tier) -> ReadScn {
             o
         };
         return ReadScn { fmt, input, cfgs, ops, mon: Monitors::default(), profile: "limit_just_permits".into() };
+    }
+    if rng.chance(1, 12) {
+        // the documented use of limited policies: read until the reader refuses, lift the limit
+        // (set_policy on the used reader), go on. The policy finally in force permits everything,
+        // so the outcome must not depend on where (or whether) the refusal happened
+        let (input, class) = any_input(rng, fmt, max_recs, max_noise);
+        let n_cfg = rng.range(2, 3);
+        let cfgs: Vec<Cfg> = (0..n_cfg)
+            .map(|i| {
+                let mut c = gen_cfg(rng, &input, true);
+                if i > 0 || rng.chance(1, 2) {
+                    c.policy = gen_refusing_policy(rng, c.cap);
+                }
+                c.lift = Some(gen_permissive_policy(rng, input.len()));
+                c
+            })
+            .collect();
+        let m = model::build(fmt, &input);
+        let n = m.items.len();
+        let ops = match rng.below(3) {
+            0 => ops_next_to_end(n),
+            1 => (0..n + 2).map(|_| if rng.chance(1, 3) { Op::OwnedNext } else { Op::Next }).collect(),
+            _ => {
+                let mut o = gen_history(rng, OpMix { next: 3, owned: 1, set: 3, exact: 0, seek: 0, iter: 0 }, 1 + rng.small(8), n, false);
+                for _ in 0..n + 2 {
+                    o.push(if rng.chance(1, 3) { Op::ReadSet(0) } else { Op::Next });
+                }
+                o
+            }
+        };
+        return ReadScn { fmt, input, cfgs, ops, mon: Monitors::default(), profile: format!("{}/limit_lifted", class) };
     }
     let (input, class) = any_input(rng, fmt, max_recs, max_noise);
     let n_cfg = rng.range(2, 4);
